@@ -39,16 +39,21 @@
    Intended design vs. the code as found (named deviations, Dev record):
      lbr    logs emitted by a body/step that then fails are delivered before the error (intended TRUE;
             the code drops them for stream init and process(), on every transport -- C08)
-     xpost  logs an exchange step emits after its data batch are delivered (intended TRUE; the HTTP client
-            discards the rest of the response after the data batch)
+     xdrop  the exchange steps whose logs emitted after the data batch are NOT delivered (intended {}; the HTTP client
+            discards the rest of the response after the data batch -- except when that step's output was
+            externalized, because resolving the pointer replays the uploaded logs; hence a set of steps)
    Conforms names the deviation instead of a generic mismatch when a real history equals the history of the
    design with exactly that switch off.                                                                    *)
 EXTENDS Naturals, Sequences, FiniteSets, TLC
 
-CONSTANTS Slices         \* the enumerated part of the grammar: a set of <<alphabet, MaxCalls, MaxSteps, MaxTicks>> with
-                         \* alphabet "rich" | "small" (step alphabets, every method over them) | "multi" (few call
-                         \* descriptors, every script of them); MaxCalls calls per script, MaxSteps steps per stream
-                         \* method body, MaxTicks tick operations before the leaving operation.  All bounds <= 3.
+CONSTANTS RichSteps,     \* > 0: enumerate every single-call script over every method whose body has <= RichSteps steps of the rich step alphabet
+          SmallSteps,    \* > 0: the same with the small step alphabet (deeper bodies)
+          MultiCalls,    \* > 0: every script of <= MultiCalls calls over a few call descriptors (cross-call effects)
+          MaxTicks       \* tick operations before the leaving operation
+\* slice = <<alphabet, calls per script, steps per stream method body, MaxTicks>>; all bounds <= 3
+Slices == (IF RichSteps > 0 THEN {<<"rich", 1, RichSteps, MaxTicks>>} ELSE {})
+          \cup (IF SmallSteps > 0 THEN {<<"small", 1, SmallSteps, MaxTicks>>} ELSE {})
+          \cup (IF MultiCalls > 0 THEN {<<"multi", MultiCalls, 2, MaxTicks>>} ELSE {})
 
 \* ------------------------------------------------------------------------------------------ sequences
 RECURSIVE SeqsUpTo(_, _)
@@ -89,8 +94,13 @@ TSmall == {Fin, St(<<"DEBUG">>, "none", <<>>, "finish", ""), St(<<>>, "plain", <
 NT(al) == IF al = "rich" THEN NTRich ELSE NTSmall
 TT(al) == IF al = "rich" THEN TRich ELSE TSmall
 
+\* steps used in non-final positions of a longer body (a representative half of the rich continuing steps)
+NTPrefix(al) == IF al = "rich"
+                THEN {Plain, St(<<"INFO">>, "plain", <<>>, "cont", ""), St(<<>>, "zrow", <<>>, "cont", ""),
+                      St(<<>>, "meta", <<"ERROR">>, "cont", ""), St(<<"DEBUG", "WARN">>, "meta", <<>>, "cont", "")}
+                ELSE NTSmall
 \* step scripts: only the last step may end the stream
-Bodies(al, maxSteps) == {<<>>} \cup {p \o <<t>> : p \in SeqsUpTo(NT(al), maxSteps - 1), t \in NT(al) \cup TT(al)}
+Bodies(al, maxSteps) == {<<>>} \cup {p \o <<t>> : p \in SeqsUpTo(NTPrefix(al), maxSteps - 1), t \in NT(al) \cup TT(al)}
 
 \* a stream method = frame (header?, output columns, init logs) x kind x body
 Frames == { [hdr |-> FALSE, cols |-> "one", ilogs |-> <<>>],        [hdr |-> TRUE, cols |-> "one", ilogs |-> <<"INFO">>],
@@ -151,8 +161,9 @@ ASSUME \A sl \in Slices : sl[1] \in {"rich", "small", "multi"} /\ sl[2] \in 1..3
 PartKey(c) == <<c.calls[1].m.kind, c.calls[1].m.hdr, c.calls[1].m.cols, c.calls[1].ops, Len(c.calls)>>
 
 \* ------------------------------------------------------------------------------------------ interpreter
-Intended == [lbr |-> TRUE, xpost |-> TRUE]
-Devs == {[lbr |-> a, xpost |-> b] : a \in BOOLEAN, b \in BOOLEAN}
+Intended == [lbr |-> TRUE, xdrop |-> {}]
+Devs == {Intended, [lbr |-> FALSE, xdrop |-> {}], [lbr |-> TRUE, xdrop |-> {1}], [lbr |-> TRUE, xdrop |-> {1, 2, 3}],
+         [lbr |-> FALSE, xdrop |-> {2, 3}]}
 
 LogToks(lvls, s, off) == [i \in 1..Len(lvls) |-> <<"log", lvls[i], s, off + i>>]      \* s = step (0 = method body), position in it
 DataTok(s, kind) == <<"data", s, kind>>
@@ -174,7 +185,7 @@ StepEvents(m, s, d) ==
       out == Outcome(m, st, s)
       pre == LogToks(st.pre, s, 0)
       dat == IF st.emit = "none" THEN <<>> ELSE <<DataTok(s, st.emit)>>
-      post == IF m.kind = "exch" /\ ~d.xpost THEN <<>> ELSE LogToks(st.post, s, Len(st.pre))
+      post == IF m.kind = "exch" /\ s \in d.xdrop THEN <<>> ELSE LogToks(st.post, s, Len(st.pre))
   IN IF out[1] = "err" THEN (IF d.lbr THEN LogToks(st.pre, s, 0) \o LogToks(st.post, s, Len(st.pre)) ELSE <<>>) \o <<out>>
      ELSE IF out[1] = "stop" THEN pre \o dat \o post \o <<out>>
      ELSE pre \o dat \o post
@@ -275,11 +286,13 @@ ProgramSmall(c, h) == Len(c.calls) <= 3 /\ Cardinality(Program(c.calls)) <= 3 /\
    Result: set of "Clause@callindex".                                                                     *)
 LogsFit(e, oc) == IsPrefix(e.logs, oc.logs) /\ IsPrefix(oc.logs, e.maylogs)
 LogClauses(call, e, oc) ==
-  IF LogsFit(e, oc) THEN {}
-  ELSE IF LogsFit(ExpCall(call, [lbr |-> FALSE, xpost |-> TRUE]), oc) THEN {"LogsBeforeError"}
-  ELSE IF LogsFit(ExpCall(call, [lbr |-> TRUE, xpost |-> FALSE]), oc) THEN {"ExchangeTrailingLogs"}
-  ELSE IF LogsFit(ExpCall(call, [lbr |-> FALSE, xpost |-> FALSE]), oc) THEN {"LogsBeforeError", "ExchangeTrailingLogs"}
-  ELSE {"LogsEqual"}
+  LET drops == SUBSET (1..e.ticks) \ {{}}                      \* which exchange steps lost their trailing logs
+      fits(lbr, S) == LogsFit(ExpCall(call, [lbr |-> lbr, xdrop |-> S]), oc)
+  IN IF LogsFit(e, oc) THEN {}
+     ELSE IF fits(FALSE, {}) THEN {"LogsBeforeError"}
+     ELSE IF e.kind = "exch" /\ \E S \in drops : fits(TRUE, S) THEN {"ExchangeTrailingLogs"}
+     ELSE IF e.kind = "exch" /\ \E S \in drops : fits(FALSE, S) THEN {"LogsBeforeError", "ExchangeTrailingLogs"}
+     ELSE {"LogsEqual"}
 CallClauses(call, e, oc) ==
   LET early == e.mayerr # <<>> /\ oc.err = e.mayerr               \* the transport already reported the optional error
       want == IF early THEN e.alldata ELSE e.data
